@@ -106,6 +106,10 @@ def regen_consts(ctx):
     if rc != 0:
         ctx.broken.append("T1 translator (tools/extract_consts.py) could not regenerate the generated Coq files: " + out.strip()[-400:])
         return False
+    fb = [e for e in ctx.t1_errors if e.startswith("fallback")]
+    if fb:
+        ctx.notes.append("T1 could not re-read %d constant(s)/table(s) from the current sources and used the values of the last verified tree "
+                         "(the behavioural correspondence T2 is the only tie for them in this run): %s" % (len(fb), " | ".join(e[:160] for e in fb[:6])))
     return True
 
 
@@ -128,7 +132,7 @@ def coq_build(ctx, targets, timeout=1500):
     if rc != 0:
         errs = [l for l in out.splitlines() if "Error" in l or l.startswith("File ")]
         tail = "\n".join(out.splitlines()[-25:])
-        t1 = getattr(ctx, "t1_errors", [])
+        t1 = [e for e in getattr(ctx, "t1_errors", []) if not e.startswith("fallback")]
         ctx.broken.append("Coq build of %s failed (a proof obligation no longer checks)%s:\n%s" % (
             " ".join(targets), ("; the T1 translator could not read: " + " | ".join(t1)) if t1 else "", tail))
         ctx.notes.append("coq build errors: " + " | ".join(errs[:6]))
